@@ -3,6 +3,7 @@
 This module is here to help source code analysis.
 """
 
+import bisect
 import re
 
 from rope.base import codeanalyze, utils
@@ -23,11 +24,13 @@ def real_code(source):
     only in offsets.
     """
     collector = codeanalyze.ChangeCollector(source)
+    fstrings = []
     for start, end, matchgroups in ignored_regions(source):
         if source[start] == "#":
             replacement = " " * (end - start)
         elif "f" in matchgroups.get("prefix", "").lower():
             replacement = None
+            fstrings.append((start, end))
         else:
             replacement = '"%s"' % (" " * (end - start - 2))
         if replacement is not None:
@@ -35,9 +38,20 @@ def real_code(source):
     source = collector.get_changed() or source
     collector = codeanalyze.ChangeCollector(source)
     parens = 0
+    fstring_end = outer_parens = None
     for match in _parens.finditer(source):
         i = match.start()
         c = match.group()
+        # f-strings are kept; a bracket in their text must not pair with
+        # the brackets of the code around them
+        if fstring_end is not None and i >= fstring_end:
+            parens = outer_parens
+            fstring_end = None
+        if fstring_end is None:
+            index = bisect.bisect_right(fstrings, (i + 1,)) - 1
+            if index >= 0 and i < fstrings[index][1]:
+                fstring_end = fstrings[index][1]
+                outer_parens = parens
         if c in "({[":
             parens += 1
         if c in ")}]":
